@@ -129,13 +129,17 @@ func (t *template) Frag(ctx context.Context) iter.Seq[string] {
 					} else {
 						panic(fmt.Sprintf("missing named arg `%s` in %s", name, t.format))
 					}
+				} else if !yield("@") {
+					// '@' that starts no name is ordinary text
+					return
 				}
 
 				if c == '@' {
 					continue
 				}
 
-				if !(c == scanner.EOF || c == '\'') {
+				// an apostrophe is a delimiter only directly after a placeholder name
+				if !(c == scanner.EOF || (c == '\'' && named.Len() > 0)) {
 					if !yield(string(c)) {
 						return
 					}
